@@ -252,6 +252,8 @@ fn check_find_prev(lb: usize, lbr: Option<usize>, max_regions: usize) {
     // the searched range stays inside the window and is at most MAX_REGIONS_SEARCHED regions long
     kani::assume(lowest >= win.region_start(0).as_usize());
     kani::assume(limit <= max_regions << win.spec.log_bytes_in_region);
+    // the corner where data_addr's own region starts below the range is decided by c22_find_prev_fast_modular / _simple
+    kani::assume(win.region_start(k).as_usize() >= lowest);
     let r = unsafe { win.spec.find_prev_non_zero_value::<u8>(data_addr, limit) };
     let j: usize = kani::any();
     kani::assume(j <= k && win.region_start(j).as_usize() >= lowest);
@@ -268,7 +270,6 @@ fn check_find_prev(lb: usize, lbr: Option<usize>, max_regions: usize) {
     }
     kani::cover!(r.is_some() && r.unwrap().as_usize() < win.region_start(k).as_usize(), "C22.cover.find_prev_lower_region");
     kani::cover!(r.is_none() && limit > (8 << win.spec.log_bytes_in_region), "C22.cover.find_prev_none_long");
-    kani::cover!(win.region_start(k).as_usize() < lowest, "C22.cover.find_prev_range_excludes_own_region_start");
     std::mem::forget(buf);
 }
 
@@ -423,6 +424,18 @@ fn spec_find_prev(win: &Window<8>, img: &[u8; MW], lb: usize, k: usize, data_add
     let lowest = data_addr.as_usize() - (limit - 1).min(data_addr.as_usize());
     let lbr = win.spec.log_bytes_in_region;
     let j_in = j <= k && win.region_start(j).as_usize() >= lowest;
+    if win.region_start(k).as_usize() < lowest {
+        // Corner: data_addr is not region aligned and the limit is so small that not even the start of data_addr's own
+        // region lies in [data_addr - limit + 1, data_addr]. A region-by-region scan of that range meets no region.
+        if tag_simple {
+            assert!(r.is_none(), "C22.find_prev_simple.range_without_a_region_start_yields_none");
+        } else if fieldb(img, k, lb) != 0 {
+            assert!(r.is_none(), "C22.find_prev_fast.own_non_zero_region_starting_below_the_range_is_not_reported");
+        } else {
+            assert!(r.is_none(), "C22.find_prev_fast.range_without_a_region_start_yields_none");
+        }
+        return;
+    }
     match r {
         Some(a) => {
             let a = a.as_usize();
@@ -465,6 +478,8 @@ fn c22_find_prev_fast_modular() {
     let mut buf = Bytes::<MW>(kani::any());
     let (win, img, j) = modular_setup(&mut buf, lb);
     kani::assume(win.r0 > 0);
+    // the code's inverse translation subtracts the two logs
+    kani::assume(win.spec.log_bytes_in_region >= lb);
     let k: usize = kani::any();
     kani::assume(k < win.n);
     let data_addr = win.addr_in(k);
@@ -556,6 +571,7 @@ fn c22_find_next_fast_modular() {
     let lb = any_small_bits();
     let mut buf = Bytes::<MW>(kani::any());
     let (win, img, j) = modular_setup(&mut buf, lb);
+    kani::assume(win.spec.log_bytes_in_region >= lb);
     let k: usize = kani::any();
     kani::assume(k < win.n);
     let data_addr = win.addr_in(k);
@@ -565,7 +581,7 @@ fn c22_find_next_fast_modular() {
     kani::assume(end <= win.region_start(win.n - 1).as_usize());
     let r = mmtk::verif_hooks::side_global::find_next_non_zero_value_fast::<u8>(&win.spec, data_addr, limit);
     spec_find_next(&win, &img, lb, k, end, j, r, false);
-    kani::cover!(r.is_some() && unsafe { W_CALLS } > 0 && r.unwrap().as_usize() > win.region_start(k + 300).as_usize(), "C22.cover.fast_next_found_by_byte_scanner_long_range");
+    kani::cover!(r.is_some() && unsafe { W_CALLS } > 0 && k < 100 && r.unwrap().as_usize() > win.region_start(400).as_usize(), "C22.cover.fast_next_found_by_byte_scanner_long_range");
     kani::cover!(r.is_none() && limit > (200 << win.spec.log_bytes_in_region), "C22.cover.fast_next_none_long");
     std::mem::forget(buf);
 }
@@ -600,29 +616,113 @@ fn check_find_next_simple(lb: usize, lbr: Option<usize>) {
     std::mem::forget(buf);
 }
 
-// (unwind: loop-free except std's Once::call state loop behind the MMAPPER lazy static)
+
+// ------------------------------------------------------------------------------------------
+// scan_non_zero_values (fast path, 1 bit per region) on a 16-byte window: visits exactly the non-zero regions
+// of [start, end), ascending, each once -- against the bitmap itself (the region-by-region scan's answer).
+// Bounded: 16 metadata bytes (128 regions), at most two set bits per metadata word.
+// ------------------------------------------------------------------------------------------
 #[kani::proof]
-#[kani::unwind(4)]
+#[kani::unwind(11)]
 #[kani::stub(mmtk::util::metadata::side_metadata::global_side_metadata_base_address, stub_base)]
-#[kani::stub(mmtk::util::heap::layout::create_mmapper, stub_create_mmapper)]
-#[kani::stub(mmtk::util::metadata::side_metadata::helpers::find_last_non_zero_bit_in_metadata_bytes, contract_find_last_in_bytes)]
-fn c22x_a() {
-    let lb = 0;
-    let mut buf = Bytes::<MW>(kani::any());
-    let img = buf.0;
-    let win = Window::<8>::new_geom(buf.addr(), lb, 3);
+fn c22_scan_values_fast() {
+    let sparse = |_: ()| -> u64 {
+        let (a, b): (u32, u32) = (kani::any(), kani::any());
+        kani::assume(a < 64 && b < 64);
+        let m: u8 = kani::any();
+        (if m & 1 != 0 { 1u64 << a } else { 0 }) | (if m & 2 != 0 { 1u64 << b } else { 0 })
+    };
+    let (w0, w1) = (sparse(()), sparse(()));
+    let mut raw = [0u8; 16];
+    let (b0, b1) = (w0.to_le_bytes(), w1.to_le_bytes());
+    raw[0] = b0[0]; raw[1] = b0[1]; raw[2] = b0[2]; raw[3] = b0[3]; raw[4] = b0[4]; raw[5] = b0[5]; raw[6] = b0[6]; raw[7] = b0[7];
+    raw[8] = b1[0]; raw[9] = b1[1]; raw[10] = b1[2]; raw[11] = b1[3]; raw[12] = b1[4]; raw[13] = b1[5]; raw[14] = b1[6]; raw[15] = b1[7];
+    let mut buf = Bytes::<16>(raw);
+    let win = Window::<2>::new_geom(buf.addr(), 0, 3);
+    let bit = |p: usize| -> bool { ((if p < 64 { w0 } else { w1 }) >> (p % 64)) & 1 == 1 };
+    let (ks, ke): (usize, usize) = (kani::any(), kani::any());
+    kani::assume(ks <= ke && ke < win.n);
     let j: usize = kani::any();
     kani::assume(j < win.n);
-    unsafe { W_BASE = buf.addr(); W_LEN = MW; W_BIT = j; W_CALLS = 0; }
-    kani::assume(win.r0 > 0);
-    let k: usize = kani::any();
-    kani::assume(k < win.n);
-    let data_addr = win.addr_in(k);
-    let limit: usize = kani::any();
-    kani::assume(limit >= 1);
-    let lowest = data_addr.as_usize() - (limit - 1).min(data_addr.as_usize());
-    kani::assume(lowest >= win.region_start(0).as_usize());
-    let r = mmtk::verif_hooks::side_global::find_prev_non_zero_value_fast::<u8>(&win.spec, data_addr, limit);
-    spec_find_prev(&win, &img, lb, k, data_addr, limit, j, r, false);
+    let lbr = win.spec.log_bytes_in_region;
+    let r0 = win.r0;
+    let mut last: isize = -1;
+    let mut ok = true;
+    let mut saw_j = false;
+    let mut count = 0usize;
+    mmtk::verif_hooks::side_global::scan_non_zero_values_fast(&win.spec, win.region_start(ks), win.region_start(ke), &mut |a: Address| {
+        let a = a.as_usize();
+        let q = (a >> lbr).wrapping_sub(r0);
+        ok = ok && a & ((1 << lbr) - 1) == 0 && q >= ks && q < ke && q < 128 && bit(q) && (q as isize) > last;
+        last = q as isize;
+        saw_j = saw_j || q == j;
+        count += 1;
+    });
+    assert!(ok, "C22.scan_values.visits_only_non_zero_regions_of_the_range_ascending");
+    assert!(saw_j == (j >= ks && j < ke && bit(j)), "C22.scan_values.visits_exactly_the_non_zero_regions_of_the_range");
+    kani::cover!(count == 4, "C22.cover.scan_values_four_regions");
+    kani::cover!(count >= 1 && ks % 8 == 3 && ke % 8 == 5 && ke - ks > 70, "C22.cover.scan_values_unaligned_long_range");
+    kani::cover!(ke - ks < 8 && ks % 8 != 0 && count == 1, "C22.cover.scan_values_inside_one_byte");
+    std::mem::forget(buf);
+}
+
+// ------------------------------------------------------------------------------------------
+// The byte-scanning loops at the edge of mapped metadata. The harness mmapper reports 8-byte grains and only the
+// 16-byte buffer as mapped; the searched range sticks out of the buffer on the side the scan moves towards. The scan
+// must report UnmappedMetadata when it reaches the edge without having found a set bit -- and must never load from
+// outside the mapped buffer (any such load is an out-of-bounds dereference, i.e. a failing check).
+// ------------------------------------------------------------------------------------------
+#[kani::proof]
+#[kani::unwind(36)]
+#[kani::stub(mmtk::util::heap::layout::create_mmapper, stub_create_mmapper)]
+fn c22_find_in_bytes_at_mapped_edge() {
+    let mut buf = Bytes::<16>(kani::any());
+    let img = buf.0;
+    let base = buf.addr();
+    kani::assume(base >= 64);
+    unsafe {
+        MAPPED_LO = base;
+        MAPPED_HI = base + 16;
+        LOG_GRANULARITY = 3;
+    }
+    let backwards: bool = kani::any();
+    let (s, e): (usize, usize) = (kani::any(), kani::any());
+    kani::assume(s < e);
+    if backwards {
+        kani::assume(s >= base - 16 && e > base && e <= base + 16);
+    } else {
+        kani::assume(s >= base && s < base + 16 && e <= base + 32);
+    }
+    let lo = if s > base { s } else { base };
+    let hi = if e < base + 16 { e } else { base + 16 };
+    let fully_mapped = s >= base && e <= base + 16;
+    let j: usize = kani::any(); // witness bit inside the mapped part of the range
+    kani::assume(j >= 8 * (lo - base) && j < 8 * (hi - base));
+    let bit = |p: usize| (img[p / 8] >> (p % 8)) & 1 == 1;
+    let r = if backwards {
+        h::find_last_non_zero_bit_in_metadata_bytes(addr(s), addr(e))
+    } else {
+        h::find_first_non_zero_bit_in_metadata_bytes(addr(s), addr(e))
+    };
+    match r {
+        FindMetaBitResult::Found { addr: fa, bit: b } => {
+            let fa = fa.as_usize();
+            assert!(fa >= lo && fa < hi && b < 8, "C22.mapped_edge.result_in_mapped_part_of_range");
+            let p = 8 * (fa - base) + b as usize;
+            assert!(bit(p), "C22.mapped_edge.result_is_set");
+            assert!(!(bit(j) && if backwards { j > p } else { j < p }), "C22.mapped_edge.no_set_bit_met_earlier");
+        }
+        FindMetaBitResult::NotFound => {
+            assert!(fully_mapped, "C22.mapped_edge.not_found_only_if_whole_range_was_scanned");
+            assert!(!bit(j), "C22.mapped_edge.none_means_all_zero");
+        }
+        FindMetaBitResult::UnmappedMetadata => {
+            assert!(!fully_mapped, "C22.mapped_edge.unmapped_only_if_range_leaves_mapped_memory");
+            assert!(!bit(j), "C22.mapped_edge.unmapped_only_after_scanning_the_mapped_part");
+        }
+    }
+    kani::cover!(matches!(r, FindMetaBitResult::UnmappedMetadata) && backwards, "C22.cover.backward_scan_hits_unmapped_edge");
+    kani::cover!(matches!(r, FindMetaBitResult::UnmappedMetadata) && !backwards, "C22.cover.forward_scan_hits_unmapped_edge");
+    kani::cover!(matches!(r, FindMetaBitResult::Found { .. }) && !fully_mapped, "C22.cover.found_before_the_edge");
     std::mem::forget(buf);
 }
